@@ -3,4 +3,4 @@ From SV Require Import Model.PostOffice Model.Mailbox Model.MailboxFail Model.C0
 Extraction Language OCaml.
 Extraction "model.ml" run_po whole comb_std
   nstep nrun ntrace ninit nenabled all_terminal mk_mbox mk_thread main_outcome nobs outcome_code
-  chain_net chain_init chain_main fan_net fan_init fan_main.
+  chain_net chain_init chain_main fan_net fan_init fan_main cover_b init_ok_b.
